@@ -10,14 +10,14 @@ def serial : Iface :=
   { name := ['s', 'e', 'r', 'i', 'a', 'l'],
     positionals := [⟨['d', 'e', 'v', 'i', 'c', 'e'], .str, true⟩],
     keywords := [⟨['b', 'a', 'u', 'd', 'r', 'a', 't', 'e'], .int, false⟩, ⟨['b', 'y', 't', 'e', 's', 'i', 'z', 'e'], .int, false⟩, ⟨['p', 'a', 'r', 'i', 't', 'y'], .str, false⟩, ⟨['s', 't', 'o', 'p', 'b', 'i', 't', 's'], .float, false⟩, ⟨['r', 't', 's', 'c', 't', 's'], .bool, false⟩],
-    ctorLinux := some { cls := ['Q', 'M', 'I', '_', 'S', 'e', 'r', 'i', 'a', 'l', 'T', 'r', 'a', 'n', 's', 'p', 'o', 'r', 't'], kind := .serial, args := [(['d', 'e', 'v', 'i', 'c', 'e'], none), (['b', 'a', 'u', 'd', 'r', 'a', 't', 'e'], none), (['b', 'y', 't', 'e', 's', 'i', 'z', 'e'], some (.int (8))), (['p', 'a', 'r', 'i', 't', 'y'], some (.str ['N'])), (['s', 't', 'o', 'p', 'b', 'i', 't', 's'], some (.flt ['1', '.', '0'])), (['r', 't', 's', 'c', 't', 's'], some (.bool false))] },
-    ctorWin := some { cls := ['Q', 'M', 'I', '_', 'S', 'e', 'r', 'i', 'a', 'l', 'T', 'r', 'a', 'n', 's', 'p', 'o', 'r', 't'], kind := .serial, args := [(['d', 'e', 'v', 'i', 'c', 'e'], none), (['b', 'a', 'u', 'd', 'r', 'a', 't', 'e'], none), (['b', 'y', 't', 'e', 's', 'i', 'z', 'e'], some (.int (8))), (['p', 'a', 'r', 'i', 't', 'y'], some (.str ['N'])), (['s', 't', 'o', 'p', 'b', 'i', 't', 's'], some (.flt ['1', '.', '0'])), (['r', 't', 's', 'c', 't', 's'], some (.bool false))] } }
+    ctorLinux := some { cls := ['Q', 'M', 'I', '_', 'S', 'e', 'r', 'i', 'a', 'l', 'T', 'r', 'a', 'n', 's', 'p', 'o', 'r', 't'], kind := .serial, args := [(['d', 'e', 'v', 'i', 'c', 'e'], none), (['b', 'a', 'u', 'd', 'r', 'a', 't', 'e'], some (.int (115200))), (['b', 'y', 't', 'e', 's', 'i', 'z', 'e'], some (.int (8))), (['p', 'a', 'r', 'i', 't', 'y'], some (.str ['N'])), (['s', 't', 'o', 'p', 'b', 'i', 't', 's'], some (.flt ['1', '.', '0'])), (['r', 't', 's', 'c', 't', 's'], some (.bool false))] },
+    ctorWin := some { cls := ['Q', 'M', 'I', '_', 'S', 'e', 'r', 'i', 'a', 'l', 'T', 'r', 'a', 'n', 's', 'p', 'o', 'r', 't'], kind := .serial, args := [(['d', 'e', 'v', 'i', 'c', 'e'], none), (['b', 'a', 'u', 'd', 'r', 'a', 't', 'e'], some (.int (115200))), (['b', 'y', 't', 'e', 's', 'i', 'z', 'e'], some (.int (8))), (['p', 'a', 'r', 'i', 't', 'y'], some (.str ['N'])), (['s', 't', 'o', 'p', 'b', 'i', 't', 's'], some (.flt ['1', '.', '0'])), (['r', 't', 's', 'c', 't', 's'], some (.bool false))] } }
 
 /-- `UdpTransportDescriptorParser` and the classes `create_transport` builds from it -/
 def udp : Iface :=
   { name := ['u', 'd', 'p'],
     positionals := [⟨['h', 'o', 's', 't'], .str, true⟩, ⟨['p', 'o', 'r', 't'], .int, true⟩],
-    keywords := [⟨['c', 'o', 'n', 'n', 'e', 'c', 't', '_', 't', 'i', 'm', 'e', 'o', 'u', 't'], .float, false⟩],
+    keywords := [],
     ctorLinux := some { cls := ['Q', 'M', 'I', '_', 'U', 'd', 'p', 'T', 'r', 'a', 'n', 's', 'p', 'o', 'r', 't'], kind := .udp, args := [(['h', 'o', 's', 't'], none), (['p', 'o', 'r', 't'], none)] },
     ctorWin := some { cls := ['Q', 'M', 'I', '_', 'U', 'd', 'p', 'T', 'r', 'a', 'n', 's', 'p', 'o', 'r', 't'], kind := .udp, args := [(['h', 'o', 's', 't'], none), (['p', 'o', 'r', 't'], none)] } }
 
@@ -33,7 +33,7 @@ def tcp : Iface :=
 def usbtmc : Iface :=
   { name := ['u', 's', 'b', 't', 'm', 'c'],
     positionals := [],
-    keywords := [⟨['v', 'e', 'n', 'd', 'o', 'r', 'i', 'd'], .int, false⟩, ⟨['p', 'r', 'o', 'd', 'u', 'c', 't', 'i', 'd'], .int, false⟩, ⟨['s', 'e', 'r', 'i', 'a', 'l', 'n', 'r'], .str, true⟩],
+    keywords := [⟨['v', 'e', 'n', 'd', 'o', 'r', 'i', 'd'], .int, true⟩, ⟨['p', 'r', 'o', 'd', 'u', 'c', 't', 'i', 'd'], .int, true⟩, ⟨['s', 'e', 'r', 'i', 'a', 'l', 'n', 'r'], .str, true⟩],
     ctorLinux := some { cls := ['Q', 'M', 'I', '_', 'P', 'y', 'U', 's', 'b', 'T', 'm', 'c', 'T', 'r', 'a', 'n', 's', 'p', 'o', 'r', 't'], kind := .usbtmc, args := [(['v', 'e', 'n', 'd', 'o', 'r', 'i', 'd'], none), (['p', 'r', 'o', 'd', 'u', 'c', 't', 'i', 'd'], none), (['s', 'e', 'r', 'i', 'a', 'l', 'n', 'r'], none)] },
     ctorWin := some { cls := ['Q', 'M', 'I', '_', 'V', 'i', 's', 'a', 'U', 's', 'b', 'T', 'm', 'c', 'T', 'r', 'a', 'n', 's', 'p', 'o', 'r', 't'], kind := .usbtmc, args := [(['v', 'e', 'n', 'd', 'o', 'r', 'i', 'd'], none), (['p', 'r', 'o', 'd', 'u', 'c', 't', 'i', 'd'], none), (['s', 'e', 'r', 'i', 'a', 'l', 'n', 'r'], none)] } }
 
